@@ -1,0 +1,33 @@
+//go:build verif
+// +build verif
+
+package state
+
+import "reflect"
+
+// VerifC14WireTypes exposes (by reflection only) the unexported types that the hand-written
+// EncodeRLP/DecodeRLP methods of this package hand to package rlp, so that the C14 schema translator
+// reads the real field lists and struct tags. Compiled only with -tags verif.
+func VerifC14WireTypes() map[string]reflect.Type {
+	return map[string]reflect.Type{
+		"rlpVal":      reflect.TypeOf(rlpVal{}),
+		"biAddresses": reflect.TypeOf(biAddresses{}),
+	}
+}
+
+// VerifC14NewPendingRelationship returns the receiver loadPendingRelationship decodes into
+// (an rlp.Decoder and rlp.Encoder).
+func VerifC14NewPendingRelationship() interface{} { return newPendingRelationship() }
+
+// VerifC14PendingPairs lists the stored (delegator|validator) pairs in stored order.
+func VerifC14PendingPairs(p interface{}) [][]byte {
+	pr := p.(*pendingRelationship)
+	out := make([][]byte, 0, len(pr.r))
+	for _, bi := range pr.r {
+		out = append(out, append([]byte{}, bi[:]...))
+	}
+	return out
+}
+
+// VerifC14NewStakingRecord wraps a Record the way getStakingRecord does (an rlp.Encoder).
+func VerifC14NewStakingRecord(r Record) interface{} { return &stakingRecord{record: r} }
